@@ -43,8 +43,9 @@ DECIDES = ('C20-ORDER: for each entry of the order table (binary and boolean ope
            'C20-KWMAP: for the 183 calls of the family (3 and 4 declared parameters x positional / keyword split x keyword order x simple / non-simple arguments) map_to_simple_call_node evaluates '
            'every non-simple argument once, in the order written, and binds every temporary.')
 NOT_DECIDED = ('assignment / call / target shapes outside the families of C20-REWRITE, C20-INPLACE, C20-KWMAP (longer chains, deeper nesting, string unpacking, C struct targets); the relative order of '
-               'temporaries and inline items in flattened assignments, double reads of the primary of an augmented attribute target, and the routing of re-ordered keyword arguments are '
-               'evaluated only by the pending parts C20-REWRITE-XORDER, C20-INPLACE-READONCE, C20-KWMAP-ROUTING (genuine defects FINDING_2..4 of session s4-G5); '
+               'temporaries and inline items in flattened assignments and the routing of re-ordered keyword arguments are decided by C20-REWRITE-XORDER and C20-KWMAP-ROUTING (armed after the repairs of '
+               'FINDING_2 and FINDING_4 of session s4-G5); the re-read of the owner NAME / C-level attribute path of an augmented target is the known finding K14 (C01-INPLACE-NAME, shared with C01; '
+               'C20-INPLACE-READONCE, whose model does not know result_in_temp(), stays unregistered); '
                'the order of the `refs` list SingleAssignmentNode.unroll hands to unroll_assignments (built by straight-line appends in another method); '
                'temporaries introduced by coercions and by analyse_types (coerce_to_temp etc.) beyond the paste/simple agreement of C20-PASTE (TypecastNode, PyMethodCallNode, JoinedStrNode, YieldExprNode '
                'exceed the evaluator: info lines); C20-STACK reports only definite disorder - where a list comes from a helper or a parameter its order is not established (info lines); '
@@ -144,11 +145,12 @@ SILENT_EDITS = [   # behaviour-preserving, no new violation
 # (`f() < g() < h()` with cdef noexcept functions logged g, f, h) - repaired in /repo (cdf5a6519), the rule is registered.
 def run(ctx):
     from ..rules import flatpar
-    from ..rules import sC20
+    from ..rules import sC20, pC01
     return [pC20.rule_order(ctx), pC20.rule_once(ctx), pC20.rule_let_order(ctx), pC20.rule_drop(ctx), flatpar.rule_flat(ctx),
             sC20.rule_paste(ctx), sC20.rule_stack(ctx), sC20.rule_hoist(ctx),
             sC20.rule_rewrite(ctx, 'main', floor=200), sC20.rule_inplace(ctx, 'main', floor=10), sC20.rule_short(ctx), sC20.rule_listdir(ctx), sC20.rule_kwmap(ctx, 'main', floor=150),
-            sC20.rule_rewrite(ctx, 'cross-order', floor=200), sC20.rule_kwmap(ctx, 'routing', floor=150)]
+            sC20.rule_rewrite(ctx, 'cross-order', floor=200), sC20.rule_kwmap(ctx, 'routing', floor=150),
+            pC01.rule_inplace(ctx, pending=True)]       # C01-INPLACE-NAME (known finding K14), shared with C01
     # armed after the repair b8df1e725 (FINDING_2 of session s4-G5): sC20.rule_rewrite(ctx, 'cross-order', floor=200) -> C20-REWRITE-XORDER reports
     #   ParseTreeTransforms.PostParse._visit_assignment_node:cross-order on the unmodified tree: `a1, b1 = a2, *s2 = f(), g()` calls g before f.
     # NOT registered (FINDING_3 of session s4-G5, partially repaired by 43f76656b: Python-level lookups are evaluated once now; the rule's model does not know
